@@ -82,7 +82,7 @@ def gen_case(k, quick):
          'via': 'cli' if k % 5 == 4 else 'api', 'dseed': r.randrange(2 ** 31)}
     big = (not quick) and r.random() < 0.15
     c['ns'] = r.choice([2, 3, 5, 8, 9, 16, 17, 31, 64, 65]) if not big else r.choice([257, 513, 1025])
-    c['dt_us'] = r.choice([4000, 2000, 1000, 500, 3000, 250, 8000])
+    c['dt_us'] = r.choice([4000, 2000, 1000, 500, 3000, 250, 8000, 1001, 4004, 2002])
     c['t0'] = r.choice([0, 0, 100, -8, -200, 1500, 32, -1, 7])
     if kind == '2d':
         c['nt'] = r.choice([2, 3, 4, 5, 15, 16, 17, 21, 33, 64, 65]) if not big else r.choice([130, 257])
@@ -99,7 +99,7 @@ def gen_case(k, quick):
             c['mseed'] = r.randrange(2 ** 31)
         c['bpv'], c['bs'] = r.choice(COMP_3D)
     c['hv'] = r.choice(['default', 'random', 'constant', 'extreme', 'duplicate', 'default'])
-    c['bin'] = r.choice(['plain', 'plain', 'fold256', 'fold4660', 'text', 'many'])
+    c['bin'] = r.choice(['plain', 'plain', 'fold256', 'fold4660', 'text', 'many', 'interval0'])
     c['ext'] = 0
     c['vary_delay'] = False
     c['scalar'] = r.choice([0, 0, 0, 1, -1, 0])   # ScalarTraceHeader (215); other values: the D35 cases
@@ -215,6 +215,8 @@ def build_source(c, d):
                 f.bin[_segyio.BinField.EnsembleFold] = 256
             elif b == 'fold4660':
                 f.bin[_segyio.BinField.EnsembleFold] = 0x1234
+            elif b == 'interval0':
+                f.bin[_segyio.BinField.Interval] = 0       # the interval is carried by the trace headers only (valid SEG-Y)
             elif b == 'text':
                 f.text[0] = ('C01 ' + ''.join(g.choice('ABCDEFGHIJKLMNOPQRSTUVWXYZ 0123456789.-') for _ in range(3100))).ljust(3200)[:3200]
             elif b == 'many':
